@@ -72,3 +72,55 @@ Section Ref.
     | _ => ref_walk key iv 0 ranges sample
     end.
 End Ref.
+
+(* ---- (4) reference CBC over the crypt:skip block pattern (cbcs) ---- *)
+Section RefCbcs.
+  Variable E : list N -> list N -> list N.
+  Variable D : list N -> list N -> list N.
+
+  (* plain CBC over whole blocks, returning the output and the last chaining value *)
+  Definition cbc (dec : bool) (key prev seg : list N) : list N * list N :=
+    (if dec then cbc_dec D else cbc_enc E) (S (length seg)) key prev seg.
+
+  (* one protected range: nc bytes CBC-crypted (chained over the crypted blocks only), ns bytes skipped,
+     repeated while a whole crypt group fits; a trailing partial group stays clear *)
+  Fixpoint ref_pattern (fuel : nat) (dec : bool) (key prev rest : list N) (nc ns : N) : list N :=
+    match fuel with
+    | O => rest
+    | S f =>
+        if nc <=? lenN rest then
+          let '(o, prev') := cbc dec key prev (firstn (N.to_nat nc) rest) in
+          if lenN rest - nc <? ns then o ++ skipn (N.to_nat nc) rest
+          else o ++ firstn (N.to_nat ns) (skipn (N.to_nat nc) rest) ++
+               ref_pattern f dec key prev' (skipn (N.to_nat ns) (skipn (N.to_nat nc) rest)) nc ns
+        else rest
+    end.
+
+  (* ns = 0 (audio): every whole block, no pattern *)
+  Definition ref_cbcs_range (dec : bool) (key iv data : list N) (nc ns : N) : list N :=
+    if ns =? 0 then
+      let n16 := N.to_nat ((lenN data / 16) * 16) in
+      fst (cbc dec key iv (firstn n16 data)) ++ skipn n16 data
+    else ref_pattern (S (length data)) dec key iv data nc ns.
+
+  (* the sub-sample map: the constant IV restarts in every protected range, clear bytes are copied *)
+  Fixpoint ref_cbcs_walk (dec : bool) (key iv : list N) (ranges : list ssp) (rest : list N) (nc ns : N)
+    : list N :=
+    match ranges with
+    | [] => rest
+    | r :: t =>
+        let c := N.to_nat (ss_clear r) in
+        let p := N.to_nat (ss_prot r) in
+        firstn c rest ++
+        (if 0 <? ss_prot r then ref_cbcs_range dec key iv (firstn p (skipn c rest)) nc ns
+         else firstn p (skipn c rest)) ++
+        ref_cbcs_walk dec key iv t (skipn p (skipn c rest)) nc ns
+    end.
+
+  Definition ref_cbcs (dec : bool) (key iv : list N) (ranges : list ssp) (cb sb : N) (sample : list N)
+    : list N :=
+    match ranges with
+    | [] => ref_cbcs_range dec key iv sample (cb * 16) (sb * 16)
+    | _ => ref_cbcs_walk dec key iv ranges sample (cb * 16) (sb * 16)
+    end.
+End RefCbcs.
